@@ -19,6 +19,7 @@ import time
 
 VERIF = os.path.dirname(os.path.dirname(os.path.abspath(__file__)))
 REPO = os.environ.get("VERIF_REPO", "/repo")
+COV_OUT = os.environ.get("VERIF_COV")   # coverage mode: directory for per-run coverage JSON (tools/coverage_report.py)
 LEAN_DIR = os.path.join(VERIF, "lean")
 HARNESS = os.path.join(VERIF, "harness")
 ALLOWED_AXIOMS = {"propext", "Classical.choice", "Quot.sound"}
@@ -114,7 +115,54 @@ class Ctx:
         print("[%s %6.1fs]" % (self.prop, time.time() - self.t0), *a, flush=True)
 
     def cleanup(self):
+        if COV_OUT:
+            try:
+                self._collect_coverage()
+            except Exception as e:     # never let the coverage report change a verdict
+                self.log("coverage collection failed:", e)
         shutil.rmtree(self.scratch, ignore_errors=True)
+
+    def _collect_coverage(self):
+        """coverage mode only: gcov --json-format over every .gcda under the scratch directory, reduced to
+        per-function line and branch counts of files that belong to the repository under test."""
+        import gzip
+        funcs = {}
+        gcdas = []
+        for root, _, files in os.walk(self.scratch):
+            gcdas += [os.path.join(root, f) for f in files if f.endswith(".gcda")]
+        for g in gcdas:
+            d = os.path.dirname(g)
+            p = run(["gcov", "--json-format", "--branch-probabilities", "--stdout", os.path.basename(g)], cwd=d, timeout=120)
+            if p.returncode != 0 or not p.stdout:
+                continue
+            for doc in p.stdout.decode("utf-8", "replace").splitlines():
+                try:
+                    j = json.loads(doc)
+                except Exception:
+                    continue
+                for fobj in j.get("files", []):
+                    fn = fobj.get("file", "")
+                    m = re.search(r"(src/(?:pdsh|common|modules)/[^/]+\.c)$", fn)
+                    if not m:
+                        continue
+                    rel = m.group(1)
+                    for ln in fobj.get("lines", []):
+                        key = (rel, ln.get("function_name") or "?")
+                        e = funcs.setdefault(key, {"lines": {}, "branches": {}})
+                        n = ln["line_number"]
+                        e["lines"][n] = e["lines"].get(n, 0) + ln.get("count", 0)
+                        for bi, b in enumerate(ln.get("branches", [])):
+                            e["branches"][(n, bi)] = e["branches"].get((n, bi), 0) + b.get("count", 0)
+        out = {}
+        for (rel, f), e in funcs.items():
+            out["%s:%s" % (rel, f)] = {
+                "lines": len(e["lines"]), "lines_hit": sum(1 for c in e["lines"].values() if c > 0),
+                "branches": len(e["branches"]), "branches_hit": sum(1 for c in e["branches"].values() if c > 0),
+                "lines_missed": sorted(n for n, c in e["lines"].items() if c == 0)[:60],
+                "branches_missed": sorted("%d.%d" % k for k, c in e["branches"].items() if c == 0)[:60]}
+        os.makedirs(COV_OUT, exist_ok=True)
+        with open(os.path.join(COV_OUT, "%s-%s-seed%d.json" % (self.prop, self.tier, self.seed)), "w") as f:
+            json.dump({"gcda": len(gcdas), "functions": out}, f, indent=1, sort_keys=True)
 
     def quick(self):
         return self.tier == "quick"
@@ -265,6 +313,10 @@ class Ctx:
         cmd = [cc, "-g", "-O1", "-w", "-DHAVE_CONFIG_H", "-D_GNU_SOURCE"] + inc
         if san:
             cmd += ["-fsanitize=address,undefined", "-fno-sanitize-recover=all", "-fno-omit-frame-pointer"]
+        if COV_OUT and cc == "gcc":
+            # coverage mode (tools/coverage_report.py): count which lines/branches of /repo's sources the
+            # correspondence of this run executes; .gcda files land next to the executable (scratch)
+            cmd += ["--coverage", "-fprofile-update=atomic"]
         cmd += list(flags) + list(srcs) + ["-o", out] + list(libs)
         p = run(cmd, timeout=timeout)
         if p.returncode != 0:
@@ -281,8 +333,13 @@ class Ctx:
         dst = os.path.join(self.scratch, "repo")
         run(["cp", "-a", REPO, dst], check=True)
         shutil.rmtree(os.path.join(dst, ".git"), ignore_errors=True)
-        p = run("make clean >/dev/null 2>&1; rm -f src/pdsh/testconfig.c; make -j16 >build.log 2>&1",
+        mk = "make -j16"
+        if COV_OUT:
+            mk = "make -j16 CFLAGS='-g -O0 --coverage -fprofile-update=atomic' LDFLAGS=--coverage"
+        p = run("make clean >/dev/null 2>&1; rm -f src/pdsh/testconfig.c; %s >build.log 2>&1" % mk,
                 cwd=dst, timeout=900)
+        if COV_OUT:
+            run("chmod -R a+rwX %s" % dst)     # runs as uid 1000 must be able to write their .gcda
         if p.returncode != 0 or not os.path.exists(os.path.join(dst, "src/pdsh/pdsh")):
             self.broken.append(("C-BROKEN", "scratch build of /repo",
                                 open(os.path.join(dst, "build.log"), errors="replace").read()[-2000:]))
